@@ -537,8 +537,8 @@ func check(tier string) int {
 	scratch := filepath.Dir(sites)
 	tree := os.Getenv("VERIF_TREE_HASH")
 	thorough := tier == "thorough"
-	plainW, raceW := envInt("CONSIM_PLAIN_WORKERS", 11), envInt("CONSIM_RACE_WORKERS", 5)
-	nPlain, kPlain, nRace, kRace := 176, 10, 50, 5
+	plainW, raceW := envInt("CONSIM_PLAIN_WORKERS", 10), envInt("CONSIM_RACE_WORKERS", 6)
+	nPlain, kPlain, nRace, kRace := 160, 10, 48, 4
 	deadline := int64(0)
 	watchdog := 15 * time.Minute
 	if thorough {
